@@ -40,17 +40,24 @@ impl<'n> TryFromNode<'n> for Field {
         target_namespace.clone_from(&doc.current_target_namespace);
 
         let is_attribute = node.tag_name().name() == "attribute";
-        let parent_is_optional = node.parent().and_then(|n| n.attribute("minOccurs")) == Some("0");
+        // the sequence / choice / all groups that enclose this member, up to the type definition
+        let groups: Vec<Node> = node
+            .ancestors()
+            .skip(1)
+            .take_while(|n| matches!(n.tag_name().name(), "sequence" | "choice" | "all"))
+            .collect();
+        let parent_is_optional = groups.iter().any(|n| n.attribute("minOccurs") == Some("0"));
         let is_choice = node.parent().is_some_and(|n| n.tag_name().name() == "choice");
+        let in_choice = groups.iter().any(|n| n.tag_name().name() == "choice");
         let is_optional = if is_attribute {
             node.attribute("use") != Some("required")
         } else {
-            // only one branch of a choice is present, so every branch is optional
-            node.attribute("minOccurs") == Some("0") || parent_is_optional || is_choice
+            // only one branch of a choice is present, so every member of a branch is optional
+            node.attribute("minOccurs") == Some("0") || parent_is_optional || in_choice
         };
         // maxOccurs="unbounded" or any count above one means the member may repeat
         let repeats = |n: &Node| n.attribute("maxOccurs").is_some_and(|m| m != "1" && m != "0");
-        let parent_is_vec = node.parent().is_some_and(|n| repeats(&n));
+        let parent_is_vec = groups.iter().any(repeats);
         let is_vec = repeats(&node) || parent_is_vec;
 
         // check if this is an any type
